@@ -138,4 +138,53 @@ theorem l2Savings_subAdd (X : ℕ → ℕ → ℝ) (p s e0 T : ℕ) (h1 : s < e0
   rw [e1] at this
   exact this
 
+/-- empirical variance of the rows `[s, e)` from the partial sums (before flooring) -/
+noncomputable def segVar (x : ℕ → ℝ) (s e : ℕ) : ℝ :=
+  segSum (fun i => x i ^ 2) s e / ((e : ℝ) - s) - (segSum x s e / ((e : ℝ) - s)) ^ 2
+
+theorem l2Table_eq_len_mul_var (x : ℕ → ℝ) (s e : ℕ) (h : s < e) :
+    l2Table x s e = ((e : ℝ) - s) * segVar x s e := by
+  have hne : ((e : ℝ) - s) ≠ 0 := by
+    have : (s : ℝ) < e := by exact_mod_cast h
+    linarith
+  simp only [l2Table, CF.l2Optim, segVar]
+  field_simp
+
+/-- the univariate Gaussian cost table satisfies the split inequality wherever the empirical variances
+    are at or above the floor (at the floor itself it can fail: the property says "above the floor") -/
+theorem gaussTable_split (x : ℕ → ℝ) (m n : ℕ) (hm : 1 ≤ m)
+    (habove : ∀ s e, s + m ≤ e → e ≤ n → varFloorConst ≤ segVar x s e) :
+    SplitIneq (gaussTable x) m n := by
+  intro s t e hadm hte hen
+  have hst : s + m ≤ t := by rcases hadm with ⟨h0, h1⟩ | ⟨_, h1⟩ <;> omega
+  have ha : (0 : ℝ) < (t : ℝ) - s := by
+    have : (s : ℝ) < t := by exact_mod_cast (by omega : s < t)
+    linarith
+  have hb : (0 : ℝ) < (e : ℝ) - t := by
+    have : (t : ℝ) < e := by exact_mod_cast (by omega : t < e)
+    linarith
+  have hf : (0 : ℝ) < varFloorConst := by unfold varFloorConst; norm_num
+  have v1 := habove s t hst (by omega)
+  have v2 := habove t e hte hen
+  have v := habove s e (by omega) hen
+  have hl2 := l2Table_split x m n hm s t e hadm hte hen
+  rw [l2Table_eq_len_mul_var x s t (by omega), l2Table_eq_len_mul_var x t e (by omega),
+    l2Table_eq_len_mul_var x s e (by omega)] at hl2
+  have e1 : ((t : ℝ) - s) + ((e : ℝ) - t) = (e : ℝ) - s := by ring
+  have hσ : ((t : ℝ) - s) * segVar x s t + ((e : ℝ) - t) * segVar x t e
+      ≤ (((t : ℝ) - s) + ((e : ℝ) - t)) * segVar x s e := by rw [e1]; exact hl2
+  have hlog := gauss_split_le _ _ _ _ _ ha hb (lt_of_lt_of_le hf v1) (lt_of_lt_of_le hf v2) hσ
+  have hpi : (0 : ℝ) < 2 * Real.pi := by positivity
+  have m1 : max (segVar x s t) varFloorConst = segVar x s t := max_eq_left v1
+  have m2 : max (segVar x t e) varFloorConst = segVar x t e := max_eq_left v2
+  have m3 : max (segVar x s e) varFloorConst = segVar x s e := max_eq_left v
+  simp only [gaussTable, CF.gaussOptim, CF.varFloor]
+  change ((t : ℝ) - s) * Real.log (2 * Real.pi * max (segVar x s t) varFloorConst) + ((t : ℝ) - s)
+      + (((e : ℝ) - t) * Real.log (2 * Real.pi * max (segVar x t e) varFloorConst) + ((e : ℝ) - t))
+      ≤ ((e : ℝ) - s) * Real.log (2 * Real.pi * max (segVar x s e) varFloorConst) + ((e : ℝ) - s)
+  rw [m1, m2, m3, Real.log_mul hpi.ne' (lt_of_lt_of_le hf v1).ne', Real.log_mul hpi.ne' (lt_of_lt_of_le hf v2).ne',
+    Real.log_mul hpi.ne' (lt_of_lt_of_le hf v).ne']
+  rw [e1] at hlog
+  nlinarith [hlog]
+
 end Skc
